@@ -226,6 +226,7 @@ func legacyWorld(p *drv.Plan, out *Out) (w *drv.World, rest []drv.Step, legacyLa
 	if orphans > 0 {
 		out.Probes["legacy.orphan-records"]++
 	}
+	img = img.Fork() // the dump is the initial contents of the disk, not a write
 	w = drv.NewWorld(p.Config)
 	w.UseSim(img)
 	w.M, w.T = M, T
